@@ -400,10 +400,12 @@ var (
 
 func serverECHKeys() []tls.EncryptedClientHelloKey {
 	echOnce.Do(func() {
-		priv, err := ecdh.X25519().GenerateKey(crand.Reader)
+		// a fixed key: hellos encrypted to it at generation time must open in any later process (replays)
+		priv, err := ecdh.X25519().NewPrivateKey([]byte("verif-fuzz-ech-x25519-private-k!"))
 		if err != nil {
 			panic(err)
 		}
+		_ = crand.Reader
 		pub := priv.PublicKey().Bytes()
 		suites := cat(bU16(1), bU16(1), bU16(1), bU16(2), bU16(1), bU16(3))
 		contents := cat([]byte{7}, bU16(0x0020), bVec16(pub), bVec16(suites), []byte{32}, bVec8([]byte("public.verif.test")), bU16(0))
@@ -715,7 +717,395 @@ func execC34Full(in KV) string {
 	return line
 }
 
+// ---- c34_hrr2: scripted two-hello flows (ClientHello, HelloRetryRequest, second ClientHello) ----
+//
+// h1 is a first hello that draws a HelloRetryRequest: a parrot hello whose key_share list was emptied
+// (with no / an inner-type / a garbage outer-type ECH extension), or a real ECH hello of the Go client
+// encrypted to the server's ECH key (base=valid; the server then insists on P-256). After the server's HRR the
+// raw client sends a second hello derived from the first: ECH extension switched / re-parameterised
+// (ech2), key_share changed (ks2), further changes (extra2), optionally behind a ChangeCipherSpec.
+
+type captureConn_c34 struct {
+	nullConn_c34
+	w []byte
+}
+
+func (c *captureConn_c34) Write(p []byte) (int, error) { c.w = append(c.w, p...); return len(p), nil }
+
+// realECHHello_c34: the outer ClientHello a Go-style uTLS client sends when given the server's ECH config.
+func realECHHello_c34() []byte {
+	keys := serverECHKeys()
+	sink := &captureConn_c34{}
+	cfg := &tls.Config{ServerName: "secret.verif.test", MinVersion: tls.VersionTLS13, RootCAs: kit().pool,
+		EncryptedClientHelloConfigList: bVec16(keys[0].Config)}
+	u := tls.UClient(sink, cfg, tls.HelloGolang)
+	u.Handshake() // fails at the first read; the hello is out by then
+	rs := splitRecords(sink.w)
+	if len(rs) == 0 || rs[0].Type != 22 {
+		return nil
+	}
+	var hs []byte
+	for _, r := range rs {
+		if r.Type == 22 {
+			hs = append(hs, r.Payload...)
+		}
+	}
+	if len(hs) < 4 {
+		return nil
+	}
+	n := int(hs[1])<<16 | int(hs[2])<<8 | int(hs[3])
+	if len(hs) < 4+n {
+		return nil
+	}
+	return hs[:4+n]
+}
+
+func (p *chParts) ext(t int) *rawExt_c34 {
+	for i := range p.exts {
+		if p.exts[i].t == t {
+			return &p.exts[i]
+		}
+	}
+	return nil
+}
+
+func (p *chParts) dropExt(t int) {
+	var out []rawExt_c34
+	for _, e := range p.exts {
+		if e.t != t {
+			out = append(out, e)
+		}
+	}
+	p.exts = out
+}
+
+// setExt replaces the body of extension t, or inserts it before a trailing pre_shared_key.
+func (p *chParts) setExt(t int, d []byte) {
+	if e := p.ext(t); e != nil {
+		e.d = d
+		return
+	}
+	at := len(p.exts)
+	if at > 0 && p.exts[at-1].t == 41 {
+		at--
+	}
+	p.exts = append(p.exts[:at:at], append([]rawExt_c34{{t, d}}, p.exts[at:]...)...)
+}
+
+var tls13IDs_c34 []tls.ClientHelloID
+
+func genC34HRR2(r *Rng, i int, tier string) string {
+	if tls13IDs_c34 == nil {
+		for _, id := range connIDList() {
+			if p, ok := parseCH_c34(realHello(id, NewRng(1))); ok && p.ext(43) != nil && p.ext(51) != nil && p.ext(41) == nil {
+				tls13IDs_c34 = append(tls13IDs_c34, id)
+			}
+		}
+	}
+	base := Pick(r, []string{"parrot", "parrot", "parrot", "valid"})
+	ech1 := "valid"
+	keys := 1
+	var h1 []byte
+	name := "Golang-0"
+	if base == "valid" {
+		h1 = realECHHello_c34()
+		if r.Intn(6) == 0 {
+			keys = 0 // the server cannot open it: plain outer hello, no ECH state
+		}
+	}
+	if h1 == nil {
+		base = "parrot"
+		id := Pick(r, tls13IDs_c34)
+		name = idName(id)
+		p, _ := parseCH_c34(realHello(id, NewRng(r.U64())))
+		p.ext(51).d = bVec16(nil) // no key share: the server has to ask for one
+		ech1 = Pick(r, []string{"inner", "inner", "inner", "none", "garbage", "keep"})
+		switch ech1 {
+		case "inner":
+			p.setExt(0xfe0d, []byte{1})
+		case "none":
+			p.dropExt(0xfe0d)
+		case "garbage":
+			p.setExt(0xfe0d, echExtBody(r, "outer"))
+		}
+		keys = r.Intn(2)
+		h1 = p.marshal()
+	}
+	ech2 := Pick(r, []string{"same", "none", "inner", "outerzero", "outerzero", "outerctx", "outerctx", "outerenc", "outerid", "outersuite", "garbage", "empty", "innerlong"})
+	ks2 := Pick(r, []string{"good", "good", "good", "good", "none", "two", "wrong", "same"})
+	extra2 := Pick(r, []string{"none", "none", "none", "cookie", "psk", "suites", "early", "sid"})
+	return fmt.Sprintf("id=%s base=%s ech1=%s keys=%d ech2=%s ks2=%s extra2=%s ccs=%d salt=%d h1=%s", name, base, ech1, keys, ech2, ks2, extra2, r.Intn(2), r.Intn(1000), hx(h1))
+}
+
+// secondHello_c34 derives the second ClientHello from the first.
+func secondHello_c34(h1 []byte, in KV, group int) []byte {
+	p, ok := parseCH_c34(h1)
+	if !ok {
+		return h1
+	}
+	r := NewRng(uint64(in.Int("salt")) + 5)
+	// the parameters of hello 1's outer extension, if it has one
+	kdf, aead, cid := 0, 0, 0
+	var oldPayloadLen int
+	if e := p.ext(0xfe0d); e != nil && len(e.d) >= 8 && e.d[0] == 0 {
+		kdf, aead, cid = int(e.d[1])<<8|int(e.d[2]), int(e.d[3])<<8|int(e.d[4]), int(e.d[5])
+		encLen := int(e.d[6])<<8 | int(e.d[7])
+		if len(e.d) >= 10+encLen {
+			oldPayloadLen = int(e.d[8+encLen])<<8 | int(e.d[9+encLen])
+		}
+	}
+	if oldPayloadLen == 0 {
+		oldPayloadLen = 64 + r.Intn(64)
+	}
+	outer := func(kdf, aead, cid int, enc, payload []byte) []byte {
+		return cat([]byte{0}, bU16(kdf), bU16(aead), []byte{byte(cid)}, bVec16(enc), bVec16(payload))
+	}
+	switch in["ech2"] {
+	case "none":
+		p.dropExt(0xfe0d)
+	case "inner":
+		p.setExt(0xfe0d, []byte{1})
+	case "innerlong":
+		p.setExt(0xfe0d, []byte{1, 0})
+	case "outerzero":
+		p.setExt(0xfe0d, outer(0, 0, 0, nil, r.Bytes(1+r.Intn(200))))
+	case "outerctx":
+		p.setExt(0xfe0d, outer(kdf, aead, cid, nil, r.Bytes(oldPayloadLen)))
+	case "outerenc":
+		p.setExt(0xfe0d, outer(kdf, aead, cid, r.Bytes(32), r.Bytes(oldPayloadLen)))
+	case "outerid":
+		p.setExt(0xfe0d, outer(kdf, aead, (cid+1)%256, nil, r.Bytes(oldPayloadLen)))
+	case "outersuite":
+		p.setExt(0xfe0d, outer(kdf, aead+1, cid, nil, r.Bytes(oldPayloadLen)))
+	case "garbage":
+		p.setExt(0xfe0d, r.Bytes(1+r.Intn(12)))
+	case "empty":
+		p.setExt(0xfe0d, nil)
+	}
+	share := func(g int) []byte {
+		n := map[int]int{29: 32, 23: 65, 24: 97, 25: 133}[g]
+		if n == 0 {
+			n = 32
+		}
+		d := r.Bytes(n)
+		if g != 29 {
+			d[0] = 4
+		}
+		return cat(bU16(g), bVec16(d))
+	}
+	switch in["ks2"] {
+	case "good":
+		p.setExt(51, bVec16(share(group)))
+	case "none":
+		p.setExt(51, bVec16(nil))
+	case "two":
+		p.setExt(51, bVec16(cat(share(group), share(29))))
+	case "wrong":
+		p.setExt(51, bVec16(share(map[bool]int{true: 23, false: 29}[group == 29])))
+	}
+	switch in["extra2"] {
+	case "cookie":
+		p.setExt(44, bVec16(r.Bytes(16)))
+	case "psk":
+		ids := cat(bVec16(r.Bytes(32)), r.Bytes(4))
+		p.dropExt(41)
+		p.exts = append(p.exts, rawExt_c34{41, cat(bVec16(ids), bVec16(bVec8(r.Bytes(32))))})
+	case "suites":
+		p.suites = append([]byte{0x13, 0x03}, p.suites...)
+	case "early":
+		p.setExt(42, nil)
+	case "sid":
+		p.sid = r.Bytes(32)
+	}
+	return p.marshal()
+}
+
+// hrrGroup_c34 parses a HelloRetryRequest handshake message and returns the selected group (0 if none).
+func hrrGroup_c34(m []byte) int {
+	if len(m) < 4+35 {
+		return 0
+	}
+	off := 4 + 35 + int(m[4+34]) + 3
+	if len(m) < off+2 {
+		return 0
+	}
+	b := m[off+2:]
+	for len(b) >= 4 {
+		t := int(b[0])<<8 | int(b[1])
+		l := int(b[2])<<8 | int(b[3])
+		if len(b) < 4+l {
+			break
+		}
+		if t == 51 && l == 2 {
+			return int(b[4])<<8 | int(b[5])
+		}
+		b = b[4+l:]
+	}
+	return 0
+}
+
+func echExtOf_c34(hello []byte) string {
+	if p, ok := parseCH_c34(hello); ok {
+		if e := p.ext(0xfe0d); e != nil {
+			if len(e.d) == 0 {
+				return "empty"
+			}
+			return hx(e.d)
+		}
+	}
+	return "-"
+}
+
+func execC34HRR2(in KV) string {
+	warmUp()
+	scfg := defaultServerCfg(&tls.Config{NextProtos: []string{"h2", "http/1.1"}})
+	if in["keys"] == "1" {
+		scfg.EncryptedClientHelloKeys = serverECHKeys()
+	}
+	if in["base"] == "valid" {
+		scfg.CurvePreferences = []tls.CurveID{tls.CurveP256}
+	}
+	h1 := in.Bytes("h1")
+	var once func() (*rawRes, bool, int, []byte)
+	once = func() (*rawRes, bool, int, []byte) {
+		res := &rawRes{Out: "err", HS: "-", Read: "-"}
+		gotHRR, group := false, 0
+		var h2 []byte
+		cRaw, sRaw, err := tcpPair()
+		if err != nil {
+			res.HS = "harness"
+			return res, false, 0, nil
+		}
+		defer cRaw.Close()
+		defer sRaw.Close()
+		dl := 1200 * time.Millisecond
+		start := time.Now()
+		sRaw.SetDeadline(start.Add(dl))
+		cRaw.SetDeadline(start.Add(dl))
+		sRec := &recConn{Conn: sRaw}
+		srv := tls.Server(sRec, scfg)
+		sDone := make(chan struct{})
+		var serverDone time.Time
+		go func() {
+			defer close(sDone)
+			defer func() { serverDone = time.Now() }()
+			defer func() {
+				if p := recover(); p != nil {
+					res.Out = "panic"
+					res.Panic = sanitize(fmt.Sprint(p))
+				}
+			}()
+			if err := srv.Handshake(); err != nil {
+				res.HS = errClass(err)
+				return
+			}
+			res.HS, res.Out = "ok", "ok"
+		}()
+		cDone := make(chan struct{})
+		go func() {
+			defer close(cDone)
+			rec := func(v byte, typ byte, p []byte) []byte { return cat([]byte{typ, 3, v}, bU16(len(p)), p) }
+			cRaw.Write(rec(1, 22, h1))
+			// read the server's answer: handshake records until a whole message is there
+			var hs []byte
+			hdr := make([]byte, 5)
+			for {
+				if _, err := io.ReadFull(cRaw, hdr); err != nil {
+					return
+				}
+				body := make([]byte, int(hdr[3])<<8|int(hdr[4]))
+				if _, err := io.ReadFull(cRaw, body); err != nil {
+					return
+				}
+				if hdr[0] != 22 {
+					if hdr[0] == 21 {
+						return
+					}
+					continue
+				}
+				hs = append(hs, body...)
+				if len(hs) >= 4 && len(hs) >= 4+(int(hs[1])<<16|int(hs[2])<<8|int(hs[3])) {
+					break
+				}
+			}
+			if hs[0] != 2 || len(hs) < 38 || hx(hs[6:38]) != "cf21ad74e59a6111be1d8c021e65b891c2a211167abb8c5e079e09e2c8a8339c" {
+				return // a ServerHello (or something else), not a HelloRetryRequest
+			}
+			gotHRR = true
+			group = hrrGroup_c34(hs)
+			h2 = secondHello_c34(h1, in, group)
+			var out []byte
+			if in["ccs"] == "1" {
+				out = append(out, rec(3, 20, []byte{1})...)
+			}
+			p := h2
+			for len(p) > 16384 {
+				out = append(out, rec(3, 22, p[:16384])...)
+				p = p[16384:]
+			}
+			out = append(out, rec(3, 22, p)...)
+			cRaw.Write(out)
+			if tc, ok := cRaw.(*net.TCPConn); ok {
+				tc.CloseWrite()
+			}
+			io.Copy(io.Discard, cRaw)
+		}()
+		grace := 1500 * time.Millisecond
+		select {
+		case <-sDone:
+		case <-time.After(dl + grace):
+			res.Out = "timeout"
+			sRaw.Close()
+			cRaw.Close()
+			select {
+			case <-sDone:
+			case <-time.After(2 * time.Second):
+			}
+		}
+		if res.Out != "timeout" && res.Out != "panic" && !serverDone.IsZero() && serverDone.Sub(start) > dl+grace/2 {
+			res.Out = "timeout"
+		}
+		cRaw.Close()
+		select {
+		case <-cDone:
+		case <-time.After(time.Second):
+		}
+		res.Wire = sRec.Written()
+		return res, gotHRR, group, h2
+	}
+	var res *rawRes
+	var gotHRR bool
+	var group int
+	var h2 []byte
+	alloc := allocDelta(func() {
+		res, gotHRR, group, h2 = once()
+		if res.Out == "timeout" {
+			if r2, g2, gr2, h22 := once(); r2.Out != "timeout" {
+				res, gotHRR, group, h2 = r2, g2, gr2, h22
+			}
+		}
+	})
+	// alerts the server sent, in order
+	var alerts []string
+	for _, r := range splitRecords(res.Wire) {
+		if r.Type == 21 && len(r.Payload) == 2 {
+			alerts = append(alerts, strconv.Itoa(int(r.Payload[1])))
+		}
+	}
+	h2ech := "-"
+	if h2 != nil {
+		h2ech = echExtOf_c34(h2)
+	}
+	dec := bi(in["base"] == "valid" && in["keys"] == "1")
+	out := fmt.Sprintf("out=%s hs=%s hrr=%d grp=%d alert=%s dec=%d h1ech=%s h2ech=%s alloc=%s", res.Out, c34Cls(res.HS), bi(gotHRR), group, joinList(alerts), dec, echExtOf_c34(h1), h2ech, allocClass(alloc))
+	if res.Out == "panic" {
+		out += " msg=" + res.Panic
+	}
+	return out
+}
+
 func init() {
+	register(&Family{Name: "c34_hrr2", Gen: genC34HRR2, Exec: execC34HRR2, Timeout: 30 * time.Second})
 	register(&Family{Name: "c34_conn", Gen: genC34Conn, Exec: execC34Conn, Timeout: 30 * time.Second})
 	register(&Family{Name: "c34_full", Gen: genC34Full, Exec: execC34Full, Timeout: 30 * time.Second})
 }
